@@ -26,7 +26,7 @@ type c15Case struct {
 	Xor    int      `json:"xor,omitempty"`
 }
 
-func c15Key(n, pat int) []byte {
+func c15KeyContent(n, pat int) []byte {
 	switch pat {
 	case 0:
 		return univ.Fill(n, 0)
@@ -35,6 +35,10 @@ func c15Key(n, pat int) []byte {
 	}
 	return univ.Pat(n, 70+pat+n)
 }
+
+// c15Key hands the key over in a caller-owned buffer that is refilled in place for every use (one buffer
+// per key length): the library must use the key it is given, not a slice it remembered earlier.
+func c15Key(n, pat int) []byte { return inCallerBuffer(c15KeyContent(n, pat)) }
 
 func init() {
 	engine.Register(&engine.Check{
@@ -154,7 +158,7 @@ func c15Sender(c *engine.Ctx, cs c15Case) {
 		c.Violate("sender/mac-length", fmt.Sprintf("MAC of %d octets", len(mac)), cs)
 		return
 	}
-	want, rerr := ref.AtMACOverWire(key, wire)
+	want, rerr := ref.AtMACOverWire(c15KeyContent(cs.KeyLen, cs.KeyPat), wire)
 	if rerr != nil {
 		c.Violate("sender/wire-malformed", fmt.Sprintf("%v: %x", rerr, trunc(wire, 60)), cs)
 		return
